@@ -29,11 +29,11 @@ theorem encPVal_length (spec : PropSpec) (p : Property) (h : propOk spec p = tru
     exact encVarintLoop_length n this
 
 theorem decPVal_enc (spec : PropSpec) (p : Property) (r : Bytes) (h : propOk spec p = true) :
-    decPVal p.val.kind (encPVal p.val ++ r) = .ok (p.val, cursorInc p - 1, r) := by
+    decPVal p.val.kind (encPVal p.val ++ r) = .ok (p.val, pvalLen p.val, r) := by
   obtain ⟨id, v⟩ := p
   simp only [propOk, Bool.and_eq_true] at h
   have h2 := h.2
-  cases v <;> simp only [PVal.kind, decPVal, encPVal, cursorInc, pvalLen] at h2 ⊢
+  cases v <;> simp only [PVal.kind, decPVal, encPVal, pvalLen] at h2 ⊢
   case u8 x =>
     have : x < 256 := by simpa using h2
     simp [decU8_enc x r this]
@@ -81,7 +81,7 @@ theorem varsFit_of_ok (spec : PropSpec) (ps : Props) (h : ps.all (propOk spec) =
 
 theorem propLoop_enc (spec : PropSpec) (plen : Nat) (ps : Props) :
     ∀ (acc : Props) (cursor fuel : Nat) (r : Bytes), ps.all (propOk spec) = true →
-      loopExact plen cursor ps = true → ps.length < fuel →
+      cursor + propListLen ps = plen → ps.length < fuel →
       propLoop spec plen fuel cursor (encPropList ps ++ r) acc = .ok (acc ++ ps, r) := by
   induction ps with
   | nil =>
@@ -89,23 +89,23 @@ theorem propLoop_enc (spec : PropSpec) (plen : Nat) (ps : Props) :
     cases fuel with
     | zero => simp at hf
     | succ fuel =>
-      simp [loopExact] at hx
+      simp [propListLen] at hx
       have : ¬ cursor < plen := by omega
       simp [propLoop, this, encPropList]
   | cons p ps ih =>
     intro acc cursor fuel r hok hx hf
     simp only [List.all_cons, Bool.and_eq_true] at hok
-    simp only [loopExact, Bool.and_eq_true, decide_eq_true_eq] at hx
+    simp only [propListLen] at hx
     cases fuel with
     | zero => simp at hf
     | succ fuel =>
       have hid := propOk_id hok.1
       have hk := propOk_kind hok.1
-      have hinc : cursor + 1 + (cursorInc p - 1) = cursor + cursorInc p := by
-        simp [cursorInc]; omega
-      simp only [propLoop, hx.1, if_true, encPropList, encProperty, List.cons_append,
-        u8_toNat_lt p.id hid, hk, List.append_assoc, decPVal_enc spec p _ hok.1, hinc]
-      have := ih (acc ++ [p]) (cursor + cursorInc p) fuel r hok.2 hx.2 (by simp at hf; omega)
+      have hlt : cursor < plen := by have := pvalLen_pos p.val; omega
+      simp only [propLoop, hlt, if_true, encPropList, encProperty, List.cons_append,
+        u8_toNat_lt p.id hid, hk, List.append_assoc, decPVal_enc spec p _ hok.1]
+      have := ih (acc ++ [p]) (cursor + 1 + pvalLen p.val) fuel r hok.2 (by omega)
+        (by simp at hf; omega)
       simp only [List.append_assoc, List.singleton_append] at this
       exact this
 
@@ -122,8 +122,8 @@ theorem decProps_enc (spec : PropSpec) (o : Option Props) (r : Bytes) (h : props
     refine ⟨[u8 0], rfl, rfl, ?_⟩
     simp [decProps, decVarint]
   | some ps =>
-    simp only [propsOk, propsOkSpec, Bool.and_eq_true, decide_eq_true_eq] at h
-    obtain ⟨⟨⟨⟨hne, hall⟩, hnorm⟩, hlim⟩, hexact⟩ := h
+    simp only [propsOk, Bool.and_eq_true, decide_eq_true_eq] at h
+    obtain ⟨⟨⟨hne, hall⟩, hnorm⟩, hlim⟩ := h
     have hne' : ps ≠ [] := by intro h; subst h; simp at hne
     have hpos := propListLen_pos_of_ne ps hne'
     have hvf := varsFit_of_ok spec ps hall
@@ -137,23 +137,8 @@ theorem decProps_enc (spec : PropSpec) (o : Option Props) (r : Bytes) (h : props
         simp [hlen]; omega
       have h0 : propListLen ps ≠ 0 := by omega
       simp only [decProps, List.append_assoc, decVarint_enc _ _ hlim, h0, if_false]
-      rw [propLoop_enc spec (propListLen ps) ps [] 0 _ r hall hexact hfuel]
+      rw [propLoop_enc spec (propListLen ps) ps [] 0 _ r hall (by omega) hfuel]
       simp [hnorm]
-
-/-- without the cursor condition the writer still succeeds with the claimed length -/
-theorem encProps_ok (spec : PropSpec) (o : Option Props) (h : propsOkSpec spec o = true) :
-    ∃ pb, encProps o = .ok pb ∧ pb.length = propsLen o := by
-  cases o with
-  | none => exact ⟨[u8 0], rfl, rfl⟩
-  | some ps =>
-    simp only [propsOkSpec, Bool.and_eq_true, decide_eq_true_eq] at h
-    obtain ⟨⟨⟨hne, hall⟩, hnorm⟩, hlim⟩ := h
-    have hvf := varsFit_of_ok spec ps hall
-    have hlen := encPropList_length spec ps hall
-    refine ⟨encVarintLoop (propListLen ps) ++ encPropList ps, ?_, ?_⟩
-    · have : ¬ propListLen ps > remainingLimit := by omega
-      simp [encProps, this, hvf]
-    · simp [propsLen, encVarintLoop_length _ hlim, hlen]
 
 theorem propsLen_pos (o : Option Props) : 1 ≤ propsLen o := by
   cases o with
@@ -283,16 +268,16 @@ theorem pubrel_ok (k : Copy) (pkid : Nat) (reason : RelReason) (props : Option P
     have h0 : e.len ≠ 0 := by omega
     simp [decodeFrame, hb, h0, decBody, hdec]
 
-/-! ### CONNACK (client) -/
+/-! ### CONNACK -/
 
 theorem connCode_rt (code : ConnCode) (c : Nat) (h : connCodeByte code = some c) :
     c < 256 ∧ connCodeOfByte c = some code := by
   cases code <;> simp [connCodeByte] at h <;> subst h <;> simp [connCodeOfByte]
 
-theorem connack_ok (sp : Bool) (code : ConnCode) (props : Option Props) (c : Nat)
+theorem connack_ok (k : Copy) (sp : Bool) (code : ConnCode) (props : Option Props) (c : Nat)
     (hc : connCodeByte code = some c) (hpr : propsOk connackSpec props = true)
     (hl : 2 + propsLen props ≤ remainingLimit) :
-    ∃ e, PartsOk .client (.connack sp code props) e := by
+    ∃ e, PartsOk k (.connack sp code props) e := by
   obtain ⟨hc1, hc2⟩ := connCode_rt code c hc
   obtain ⟨pb, h1, h2, h3⟩ := decProps_enc connackSpec props [] hpr
   simp only [List.append_nil] at h3
@@ -489,10 +474,10 @@ theorem decReasons_enc (rs : List UnsubReason) :
     have hm : unsubReasonByte x % 256 = unsubReasonByte x := by omega
     simp [decReasons, hm, h2, ih]
 
-theorem unsuback_ok (pkid : Nat) (props : Option Props) (rs : List UnsubReason)
+theorem unsuback_ok (k : Copy) (pkid : Nat) (props : Option Props) (rs : List UnsubReason)
     (hp : pkid < 65536) (hne : rs ≠ []) (hpr : propsOk ackSpec props = true)
     (hl : 2 + rs.length + propsLen props ≤ remainingLimit) :
-    ∃ e, PartsOk .client (.unsuback pkid props rs) e := by
+    ∃ e, PartsOk k (.unsuback pkid props rs) e := by
   obtain ⟨pb, h1, h2, h3⟩ := decProps_enc ackSpec props (rs.map fun x => u8 (unsubReasonByte x)) hpr
   refine ⟨⟨0xB0, 2 + rs.length + propsLen props,
       encU16 pkid ++ pb ++ rs.map (fun x => u8 (unsubReasonByte x))⟩,
@@ -513,7 +498,7 @@ theorem unsuback_ok (pkid : Nat) (props : Option Props) (rs : List UnsubReason)
 theorem decWill_enc (flags : Nat) (will : Option Will) (r : Bytes) (c L : Nat)
     (hf : flags = c * 2 + optLen willFlags will + L) (hc : c ≤ 1)
     (hL : ∃ a b, L = a * 128 + b * 64 ∧ a ≤ 1 ∧ b ≤ 1)
-    (hw : optAll (willOk true) will = true) :
+    (hw : optAll willOk will = true) :
     ∃ wb, encOptWill will = .ok wb ∧ wb.length = optLen willLen will ∧
       decWill flags (wb ++ r) = .ok (will, r) := by
   obtain ⟨a, b, hL, ha, hb⟩ := hL
@@ -532,7 +517,7 @@ theorem decWill_enc (flags : Nat) (will : Option Will) (r : Bytes) (c L : Nat)
       have : flags / 32 % 2 = ρ := by omega
       rw [this]; exact propext hret
     have hqq : qosOfNat w.qos.toNat = some w.qos := by cases w.qos <;> rfl
-    simp only [optAll, willOk, Bool.and_eq_true, if_true] at hw
+    simp only [optAll, willOk, Bool.and_eq_true] at hw
     obtain ⟨⟨ht, hm⟩, hp⟩ := hw
     obtain ⟨topic, msg, qos, retain, props⟩ := w
     simp only at hp ht hm h3 h4 hqq
@@ -546,7 +531,7 @@ theorem connect_ok (k : Copy) (keepAlive : Nat) (clientId : Bytes) (clean : Bool
     (props : Option Props) (will : Option Will) (login : Option Login)
     (hka : keepAlive < 65536) (hc : strOk true clientId = true)
     (hpr : propsOk connectSpec props = true)
-    (hw : optAll (willOk true) will = true) (hl : optAll loginOk login = true)
+    (hw : optAll willOk will = true) (hl : optAll loginOk login = true)
     (hlim : connectLen props clientId will login ≤ remainingLimit) :
     ∃ e, PartsOk k (.connect 5 keepAlive clientId clean props will login) e := by
   obtain ⟨c, W, L, hflags, hc1, hclean, hW, hL⟩ := V4.connectFlags_shape clean will login
@@ -599,32 +584,33 @@ theorem discReason_rt (r : DiscReason) :
     discReasonByte r < 256 ∧ discReasonOfByte (discReasonByte r) = some r := by
   cases r <;> decide
 
-/-- with properties: `E0, remaining length, reason, property block` -/
-theorem disconnect_props_ok (k : Copy) (reason : DiscReason) (ps : Props) (max : Nat) (r : Bytes)
-    (hpr : propsOk disconnectSpec (some ps) = true)
-    (hl : 1 + propsLen (some ps) ≤ remainingLimit) (hmax : 1 + propsLen (some ps) ≤ max) :
-    ∃ out, encodeRet k (.disconnect reason (some ps)) = .ok (out, out.length) ∧
-      out.length = disconnectSize reason (some ps) ∧
-      decode k max (out ++ r) = .packet (.disconnect reason (some ps)) r := by
+theorem disconnectLen_eq (reason : DiscReason) (props : Option Props) :
+    disconnectLen reason props = 1 + propsLen props := by
+  cases props with
+  | none => simp [disconnectLen, propsLen]
+  | some ps => simp [disconnectLen, propsLen]
+
+/-- every DISCONNECT except the plain one: `E0, remaining length, reason, property block` -/
+theorem disconnect_full_ok (k : Copy) (reason : DiscReason) (props : Option Props) (max : Nat)
+    (r : Bytes) (hnp : disconnectPlain reason props = false)
+    (hpr : propsOk disconnectSpec props = true)
+    (hl : 1 + propsLen props ≤ remainingLimit) (hmax : 1 + propsLen props ≤ max) :
+    ∃ out, encodeRet k (.disconnect reason props) = .ok (out, out.length) ∧
+      out.length = disconnectSize reason props ∧
+      decode k max (out ++ r) = .packet (.disconnect reason props) r := by
   obtain ⟨h1, h2⟩ := discReason_rt reason
-  obtain ⟨pb, hp1, hp2, hp3⟩ := decProps_enc disconnectSpec (some ps) [] hpr
+  obtain ⟨pb, hp1, hp2, hp3⟩ := decProps_enc disconnectSpec props [] hpr
   simp only [List.append_nil] at hp3
-  have hne : ps ≠ [] := by
-    simp only [propsOk, propsOkSpec, Bool.and_eq_true] at hpr
-    intro h; subst h; simp at hpr
-  have hpos := propListLen_pos_of_ne ps hne
-  have hll := lenLen_pos (propListLen ps)
-  have hlen : disconnectLen reason (some ps) = 1 + propsLen (some ps) := by
-    simp [disconnectLen, propsLen]
-  have hN2 : 1 + propsLen (some ps) ≠ 2 := by simp [propsLen]; omega
-  have hN0 : 1 + propsLen (some ps) ≠ 0 := by omega
-  have hb' : pb.length + 1 = 1 + propsLen (some ps) := by omega
-  generalize 1 + propsLen (some ps) = N at *
+  have hpl := propsLen_pos props
+  have hlen := disconnectLen_eq reason props
+  have hN0 : 1 + propsLen props ≠ 0 := by omega
+  have hb' : pb.length + 1 = 1 + propsLen props := by omega
+  generalize 1 + propsLen props = N at *
   have hbody : ([u8 (discReasonByte reason)] ++ pb).length = N := by simp; omega
   refine ⟨u8 0xE0 :: (encVarintLoop N ++ ([u8 (discReasonByte reason)] ++ pb)), ?_, ?_, ?_⟩
-  · simp only [encodeRet, encDisconnect, hlen, hN2, if_false, encVarint_ok _ hl, hp1]
+  · simp only [encodeRet, encDisconnect, hlen, hnp, encVarint_ok _ hl, hp1]
     simp [encVarintLoop_length _ hl]; omega
-  · simp only [disconnectSize, hlen, hN2, if_false]
+  · simp only [disconnectSize, hlen, hnp]
     simp [encVarintLoop_length _ hl]; omega
   · have h := splitFrame_frame max 0xE0 ([u8 (discReasonByte reason)] ++ pb) r (by decide)
       (by rw [hbody]; exact hl) (by rw [hbody]; exact hmax)
@@ -633,14 +619,14 @@ theorem disconnect_props_ok (k : Copy) (reason : DiscReason) (ps : Props) (max :
     have hm : discReasonByte reason % 256 = discReasonByte reason := by omega
     simp [decodeFrame, hN0, decBody, decDisconnect, decU8, hm, h2, hp3]
 
-/-- the two-byte form `E0 00`, which only the broker reads back -/
-theorem disconnect_plain_ok (max : Nat) (r : Bytes) :
-    encodeRet .broker (.disconnect .NormalDisconnection none) = .ok ([u8 0xE0, u8 0], 2) ∧
+/-- the two-byte form `E0 00` -/
+theorem disconnect_plain_ok (k : Copy) (max : Nat) (r : Bytes) :
+    encodeRet k (.disconnect .NormalDisconnection none) = .ok ([u8 0xE0, u8 0], 2) ∧
       disconnectSize .NormalDisconnection none = 2 ∧
-      decode .broker max ([u8 0xE0, u8 0] ++ r) = .packet (.disconnect .NormalDisconnection none) r := by
-  refine ⟨by simp [encodeRet, encDisconnect, disconnectLen], by simp [disconnectSize, disconnectLen], ?_⟩
-  simp [decode, splitFrame, decVarint, u8, decodeFrame]
-
+      decode k max ([u8 0xE0, u8 0] ++ r) = .packet (.disconnect .NormalDisconnection none) r := by
+  refine ⟨by simp [encodeRet, encDisconnect, disconnectLen, disconnectPlain],
+    by simp [disconnectSize, disconnectLen, disconnectPlain], ?_⟩
+  cases k <;> simp [decode, splitFrame, decVarint, u8, decodeFrame]
 
 /-! ### all packets -/
 
@@ -659,99 +645,91 @@ theorem roundTrips_of_parts (k : Copy) (p : Packet) (e : Enc) (he : PartsOk k p 
   rw [h1] at h1'; cases h1'; exact h4'
 
 theorem roundTrips (k : Copy) (p : Packet) (h : wf k p = true) : RoundTrips k p := by
-  unfold wf at h
   cases p with
   | connect level keepAlive clientId clean props will login =>
-    simp only [wfGen, Bool.and_eq_true, decide_eq_true_eq, if_true, beq_iff_eq] at h
+    simp only [wf, Bool.and_eq_true, decide_eq_true_eq, beq_iff_eq] at h
     obtain ⟨⟨⟨⟨⟨⟨h1, h2⟩, h3⟩, h4⟩, h5⟩, h6⟩, h7⟩ := h
     subst h1
     obtain ⟨e, he⟩ := connect_ok k keepAlive clientId clean props will login h2 h3 h4 h5 h6 h7
     exact roundTrips_of_parts k _ e he
   | connack sp code props =>
-    simp only [wfGen, Bool.and_eq_true, decide_eq_true_eq, if_true, Bool.not_true, Bool.false_or,
-      beq_iff_eq] at h
-    obtain ⟨⟨⟨⟨h1, _⟩, h3⟩, h4⟩, h5⟩ := h
-    subst h5
+    simp only [wf, Bool.and_eq_true, decide_eq_true_eq] at h
+    obtain ⟨⟨⟨h1, _⟩, h3⟩, h4⟩ := h
     cases hc : connCodeByte code with
     | none => simp [hc] at h1
     | some c =>
-      obtain ⟨e, he⟩ := connack_ok sp code props c hc h3 h4
+      obtain ⟨e, he⟩ := connack_ok k sp code props c hc h3 h4
       exact roundTrips_of_parts _ _ e he
   | publish dup qos retain topic pkid payload props =>
-    simp only [wfGen, Bool.and_eq_true, decide_eq_true_eq, if_true] at h
+    simp only [wf, Bool.and_eq_true, decide_eq_true_eq] at h
     obtain ⟨⟨⟨⟨h1, h2⟩, h3⟩, h4⟩, h5⟩ := h
     obtain ⟨e, he⟩ := publish_ok k dup qos retain topic pkid payload props h1 h2 h3 h4 h5
     exact roundTrips_of_parts k _ e he
   | puback pkid reason props =>
-    simp only [wfGen, Bool.and_eq_true, decide_eq_true_eq, if_true] at h
+    simp only [wf, Bool.and_eq_true, decide_eq_true_eq] at h
     obtain ⟨e, he⟩ := (puback_ok k pkid reason props h.1.1 h.1.2 h.2).1
     exact roundTrips_of_parts k _ e he
   | pubrec pkid reason props =>
-    simp only [wfGen, Bool.and_eq_true, decide_eq_true_eq, if_true] at h
+    simp only [wf, Bool.and_eq_true, decide_eq_true_eq] at h
     obtain ⟨e, he⟩ := (puback_ok k pkid reason props h.1.1 h.1.2 h.2).2
     exact roundTrips_of_parts k _ e he
   | pubrel pkid reason props =>
-    simp only [wfGen, Bool.and_eq_true, decide_eq_true_eq, if_true] at h
+    simp only [wf, Bool.and_eq_true, decide_eq_true_eq] at h
     obtain ⟨e, he⟩ := (pubrel_ok k pkid reason props h.1.1 h.1.2 h.2).1
     exact roundTrips_of_parts k _ e he
   | pubcomp pkid reason props =>
-    simp only [wfGen, Bool.and_eq_true, decide_eq_true_eq, if_true] at h
+    simp only [wf, Bool.and_eq_true, decide_eq_true_eq] at h
     obtain ⟨e, he⟩ := (pubrel_ok k pkid reason props h.1.1 h.1.2 h.2).2
     exact roundTrips_of_parts k _ e he
   | subscribe pkid props fs =>
-    simp only [wfGen, Bool.and_eq_true, decide_eq_true_eq, if_true] at h
+    simp only [wf, Bool.and_eq_true, decide_eq_true_eq] at h
     obtain ⟨⟨⟨⟨h1, h2⟩, h3⟩, h4⟩, h5⟩ := h
     have hne : fs ≠ [] := by intro h; subst h; simp at h2
     obtain ⟨e, he⟩ := subscribe_ok k pkid props fs h1 hne h3 h4 h5
     exact roundTrips_of_parts k _ e he
   | suback pkid props cs =>
-    simp only [wfGen, Bool.and_eq_true, decide_eq_true_eq, if_true] at h
+    simp only [wf, Bool.and_eq_true, decide_eq_true_eq] at h
     obtain ⟨⟨⟨⟨h1, h2⟩, h3⟩, h4⟩, h5⟩ := h
     have hne : cs ≠ [] := by intro h; subst h; simp at h2
     obtain ⟨e, he⟩ := suback_ok k pkid props cs h1 hne h3 h4 h5
     exact roundTrips_of_parts k _ e he
   | unsubscribe pkid props ts =>
-    simp only [wfGen, Bool.and_eq_true, decide_eq_true_eq, if_true] at h
+    simp only [wf, Bool.and_eq_true, decide_eq_true_eq] at h
     obtain ⟨⟨⟨h1, h2⟩, h3⟩, h4⟩ := h
     obtain ⟨e, he⟩ := unsubscribe_ok k pkid props ts h1 h2 h3 h4
     exact roundTrips_of_parts k _ e he
   | unsuback pkid props rs =>
-    simp only [wfGen, Bool.and_eq_true, decide_eq_true_eq, if_true, Bool.not_true, Bool.false_or,
-      beq_iff_eq] at h
-    obtain ⟨⟨⟨⟨h1, h2⟩, h3⟩, h4⟩, h5⟩ := h
-    subst h5
+    simp only [wf, Bool.and_eq_true, decide_eq_true_eq] at h
+    obtain ⟨⟨⟨h1, h2⟩, h3⟩, h4⟩ := h
     have hne : rs ≠ [] := by intro h; subst h; simp at h2
-    obtain ⟨e, he⟩ := unsuback_ok pkid props rs h1 hne h3 h4
+    obtain ⟨e, he⟩ := unsuback_ok k pkid props rs h1 hne h3 h4
     exact roundTrips_of_parts _ _ e he
   | pingreq => exact roundTrips_of_parts k _ _ (ping_ok k).1
   | pingresp => exact roundTrips_of_parts k _ _ (ping_ok k).2
   | disconnect reason props =>
-    simp only [wfGen, Bool.and_eq_true, decide_eq_true_eq, if_true, Bool.not_true, Bool.false_or] at h
-    obtain ⟨⟨h1, h2⟩, h3⟩ := h
-    cases props with
-    | some ps =>
-      obtain ⟨out, e1, e2, _⟩ := disconnect_props_ok k reason ps (1 + propsLen (some ps)) [] h1 h2
+    simp only [wf, Bool.and_eq_true, decide_eq_true_eq] at h
+    obtain ⟨h1, h2⟩ := h
+    by_cases hp : disconnectPlain reason props = true
+    · simp only [disconnectPlain, Bool.and_eq_true, beq_iff_eq] at hp
+      obtain ⟨hr, hn⟩ := hp
+      have := isNone_eq hn
+      subst hr; subst this
+      refine ⟨[u8 0xE0, u8 0], ?_, ?_, ?_, ?_⟩
+      · simp [encode, (disconnect_plain_ok k 0 []).1]
+      · simp [writeReturn, (disconnect_plain_ok k 0 []).1]
+      · simp [size, (disconnect_plain_ok k 0 []).2.1]
+      · intro max r _; exact (disconnect_plain_ok k max r).2.2
+    · have hnp : disconnectPlain reason props = false := by simpa using hp
+      obtain ⟨out, e1, e2, _⟩ := disconnect_full_ok k reason props (1 + propsLen props) [] hnp h1 h2
         (Nat.le_refl _)
       refine ⟨out, by simp [encode, e1], by simp [writeReturn, e1], by simp [size, e2], ?_⟩
       intro max r hmax
-      have hle : 1 + propsLen (some ps) ≤ max := by
-        have : out.length = disconnectSize reason (some ps) := e2
-        have hl2 : disconnectLen reason (some ps) = 1 + propsLen (some ps) := by
-          simp [disconnectLen, propsLen]
-        simp only [disconnectSize, hl2] at this
-        split at this <;> omega
-      obtain ⟨out', e1', _, e3'⟩ := disconnect_props_ok k reason ps max r h1 h2 hle
+      have hle : 1 + propsLen props ≤ max := by
+        have hsz : out.length = disconnectSize reason props := e2
+        simp only [disconnectSize, disconnectLen_eq, hnp] at hsz
+        simp at hsz; omega
+      obtain ⟨out', e1', _, e3'⟩ := disconnect_full_ok k reason props max r hnp h1 h2 hle
       rw [e1] at e1'; cases e1'; exact e3'
-    | none =>
-      simp only [Bool.and_eq_true, beq_iff_eq] at h3
-      obtain ⟨hr, hk⟩ := h3
-      subst hr; subst hk
-      refine ⟨[u8 0xE0, u8 0], ?_, ?_, ?_, ?_⟩
-      · simp [encode, (disconnect_plain_ok 0 []).1]
-      · simp [writeReturn, (disconnect_plain_ok 0 []).1]
-      · simp [size, (disconnect_plain_ok 0 []).2.1]
-      · intro max r _; exact (disconnect_plain_ok max r).2.2
-
 
 /-! ### the two copies produce the same bytes for the same content -/
 
@@ -790,7 +768,7 @@ theorem encCodes_toClient (cs : List SubCode) (h : cs.all (codeOk .broker) = tru
 
 theorem wf_codes (k : Copy) (pkid : Nat) (props : Option Props) (cs : List SubCode)
     (h : wf k (.suback pkid props cs) = true) : cs.all (codeOk k) = true := by
-  simp only [wf, wfGen, Bool.and_eq_true] at h
+  simp only [wf, Bool.and_eq_true] at h
   exact h.1.1.2
 
 theorem encodeRet_toBroker (p : Packet) (h : wf .client p = true) :
@@ -810,34 +788,58 @@ theorem encodeRet_toClient (q : Packet) (h : wf .broker q = true) :
   all_goals rfl
 
 
-/-! ### the cursor accounting is exact unless subscription identifiers are present -/
+/-! ### well-formedness is the same notion in both crates (up to the SubAck renaming) -/
 
-theorem loopExact_noVar (ps : Props) (h : ∀ p ∈ ps, p.val.kind ≠ .var) :
-    ∀ cursor, loopExact (cursor + propListLen ps) cursor ps = true := by
-  induction ps with
-  | nil => intro cursor; simp [loopExact, propListLen]
-  | cons p ps ih =>
-    intro cursor
-    have hp : p.val.kind ≠ .var := h p (by simp)
-    have hinc : cursorInc p = 1 + pvalLen p.val := by
-      obtain ⟨id, v⟩ := p
-      cases v <;> simp_all [cursorInc, PVal.kind]
-    have hpos := pvalLen_pos p.val
-    have h1 : cursor < cursor + propListLen (p :: ps) := by simp [propListLen]; omega
-    have h2 := ih (fun q hq => h q (by simp [hq])) (cursor + cursorInc p)
-    have e : cursor + cursorInc p + propListLen ps = cursor + propListLen (p :: ps) := by
-      simp [propListLen, hinc]; omega
-    rw [e] at h2
-    simp [loopExact, h1, h2]
+theorem codeOk_toBroker (c : SubCode) (h : codeOk .client c = true) :
+    codeOk .broker (toBrokerCode c) = true := by
+  cases c with
+  | Success q => cases q <;> decide
+  | Failure => simp [codeOk, subCodeByte, subCodeOfByte] at h
+  | QoS0 => simp [codeOk, subCodeByte] at h
+  | QoS1 => simp [codeOk, subCodeByte] at h
+  | QoS2 => simp [codeOk, subCodeByte] at h
+  | _ => decide
 
-theorem propsOk_of_spec_noVar (spec : PropSpec) (o : Option Props)
-    (h : propsOkSpec spec o = true) (hv : ∀ ps, o = some ps → ∀ p ∈ ps, p.val.kind ≠ .var) :
-    propsOk spec o = true := by
-  cases o with
-  | none => simp [propsOk, h]
-  | some ps =>
-    have := loopExact_noVar ps (hv ps rfl) 0
-    simp only [Nat.zero_add] at this
-    simp [propsOk, h, this]
+theorem codeOk_toClient (c : SubCode) (h : codeOk .broker c = true) :
+    codeOk .client (toClientCode c) = true := by
+  cases c with
+  | Success q => cases q <;> simp [codeOk, subCodeByte, subCodeOfByte, QoS.toNat] at h
+  | Failure => simp [codeOk, subCodeByte, subCodeOfByte] at h
+  | _ => decide
+
+theorem wf_suback_iff (k : Copy) (pkid : Nat) (props : Option Props) (cs : List SubCode) :
+    wf k (.suback pkid props cs) = (decide (pkid < 65536) && !cs.isEmpty && cs.all (codeOk k)
+      && propsOk ackSpec props && decide (2 + cs.length + propsLen props ≤ remainingLimit)) := rfl
+
+theorem wf_toBroker (p : Packet) (h : wf .client p = true) : wf .broker (toBroker p) = true := by
+  cases p
+  case connack sp code props =>
+    simp only [toBroker, wf, Bool.and_eq_true, decide_eq_true_eq] at h ⊢
+    refine ⟨⟨⟨h.1.1.1, ?_⟩, h.1.2⟩, h.2⟩
+    cases code <;> simp [connCodeByte] at h ⊢
+  case suback pkid props cs =>
+    simp only [toBroker, wf_suback_iff, Bool.and_eq_true, decide_eq_true_eq] at h ⊢
+    obtain ⟨⟨⟨⟨h1, h2⟩, h3⟩, h4⟩, h5⟩ := h
+    refine ⟨⟨⟨⟨h1, by simpa using h2⟩, ?_⟩, h4⟩, by simpa using h5⟩
+    simp only [List.all_eq_true] at h3 ⊢
+    intro c hc
+    obtain ⟨c0, hc0, rfl⟩ := List.mem_map.mp hc
+    exact codeOk_toBroker c0 (h3 c0 hc0)
+  all_goals exact h
+
+theorem wf_toClient (p : Packet) (h : wf .broker p = true) : wf .client (toClient p) = true := by
+  cases p
+  case connack sp code props =>
+    simp only [toClient, wf, Bool.and_eq_true, decide_eq_true_eq] at h ⊢
+    exact ⟨⟨⟨h.1.1.1, trivial⟩, h.1.2⟩, h.2⟩
+  case suback pkid props cs =>
+    simp only [toClient, wf_suback_iff, Bool.and_eq_true, decide_eq_true_eq] at h ⊢
+    obtain ⟨⟨⟨⟨h1, h2⟩, h3⟩, h4⟩, h5⟩ := h
+    refine ⟨⟨⟨⟨h1, by simpa using h2⟩, ?_⟩, h4⟩, by simpa using h5⟩
+    simp only [List.all_eq_true] at h3 ⊢
+    intro c hc
+    obtain ⟨c0, hc0, rfl⟩ := List.mem_map.mp hc
+    exact codeOk_toClient c0 (h3 c0 hc0)
+  all_goals exact h
 
 end Codec.V5
